@@ -62,6 +62,10 @@ type Scenario struct {
 	Targets          []*TargetSpec  `json:"targets"`
 	Replicas         []*ReplicaSpec `json:"replicas"`
 	StopReason       string         `json:"stop_reason,omitempty"`
+	// ReplicaSeeds, when set, make the schedule of each replica (release order,
+	// map permutation salt, math/rand seed) a function of that replica's own
+	// seed, so that a replica sees the same schedule with and without the others.
+	ReplicaSeeds []uint64 `json:"replica_seeds,omitempty"`
 }
 
 // Gen controls what the generator may produce.
@@ -210,6 +214,11 @@ func Generate(tp *core.Tape, g Gen) *Scenario {
 					}
 				}
 			}
+		}
+	}
+	if g.Replicas > 1 {
+		for range sc.Replicas {
+			sc.ReplicaSeeds = append(sc.ReplicaSeeds, uint64(tp.Choose("replica_seed", 1<<20)))
 		}
 	}
 	for _, rs := range sc.Replicas {
